@@ -125,6 +125,9 @@ def explore_case(case: Case, open_regions: List[str], fidelity: str = "all", sto
                 sys.setprofile(None)
         state["first"] = False
         outcomes.add(json.dumps(jsonable(outcome), sort_keys=True))
+        if hasattr(case, "metrics"):
+            for mk_, mv_ in case.metrics(data, outcome).items():
+                res.setdefault("metrics", {})[mk_] = res.setdefault("metrics", {}).get(mk_, 0) + mv_
         obs = case.obligations(Z3, data, outcome)
         if not obs:
             raise HarnessError("no obligation reached on a path of %s" % case.describe())
